@@ -289,6 +289,9 @@ impl Hash for Num {
             Self::Float(f) => {
                 state.write_u8(0);
                 if f.is_finite() {
+                    // hash negative and positive zero alike,
+                    // because they are also considered equal
+                    let f = if *f == 0. { 0. } else { *f };
                     f.to_ne_bytes().hash(state);
                 }
             }
